@@ -1,21 +1,22 @@
 #!/bin/bash
 # usage: seedtest.sh <seed dir name under /verif/seeded> <tier> <check id>...
-# Applies a seeded property-breaking change to /repo, runs the given checks, records the verdicts, undoes the change.
+# Applies a seeded property-breaking change to a SCRATCH COPY of /repo's working tree, runs the given checks against
+# that copy (check.sh with VERIF_REPO), records the verdicts and removes the copy. /repo itself and /verif/evidence
+# are not touched, so this can run next to other checks.
 set -u
 name=$1; tier=$2; shift 2
 dir=/verif/seeded/$name
-if ! git -C /repo diff --quiet; then echo "/repo has uncommitted changes"; exit 2; fi
-if ! git -C /repo apply --check "$dir/patch.diff" 2>/dev/null; then echo "$name: patch does not apply"; exit 2; fi
-git -C /repo apply "$dir/patch.diff"
+copy=/var/tmp/seedrepo.$$; out=/var/tmp/seedout.$$
+rm -rf "$copy" "$out"; mkdir -p "$copy" "$out"
+rsync -a --exclude .git /repo/ "$copy/"
+if ! (cd "$copy" && git apply "$dir/patch.diff" 2>/dev/null); then echo "$name: patch does not apply"; rm -rf "$copy" "$out"; exit 2; fi
 : > "$dir/result.txt"
 for id in "$@"; do
-  out=$(/verif/check.sh "$id" "$tier" 2>&1 | grep -v '^APP-ERROR')
-  rc=$?
-  nv=$(echo "$out" | grep -c '^VIOLATION')
-  he=$(echo "$out" | grep -c 'HARNESS-ERROR')
+  out_txt=$(VERIF_REPO="$copy" VERIF_OUT="$out" /verif/check.sh "$id" "$tier" 2>&1 | grep -v '^APP-ERROR')
+  nv=$(echo "$out_txt" | grep -c '^VIOLATION')
+  he=$(echo "$out_txt" | grep -c 'HARNESS-ERROR')
   echo "$id $tier: violations=$nv harness_errors=$he" | tee -a "$dir/result.txt"
-  echo "$out" | grep -A2 '^VIOLATION' | head -12 | cut -c1-400 >> "$dir/result.txt"
-  echo "$out" | grep 'HARNESS-ERROR' | head -3 | cut -c1-400 >> "$dir/result.txt"
+  echo "$out_txt" | grep -A2 '^VIOLATION' | head -12 | cut -c1-400 | sed "s#$out#/verif#" >> "$dir/result.txt"
+  echo "$out_txt" | grep 'HARNESS-ERROR' | head -3 | cut -c1-400 >> "$dir/result.txt"
 done
-git -C /repo checkout -- .
-git -C /repo status --short | head -3
+rm -rf "$copy" "$out"
